@@ -18,20 +18,6 @@ def md_parser(config_kwargs: dict):
     return create_md_parser(MdParserConfig(**config_kwargs), RendererHTML)
 
 
-def alt_text(node) -> str:
-    out = []
-    for ch in node.children or []:
-        if ch.type in ("text", "code_inline", "text_special"):
-            out.append(ch.content)
-        elif ch.type in ("softbreak", "hardbreak"):
-            out.append("\n")
-        elif ch.type == "image":
-            out.append(alt_text(ch))
-        else:
-            out.append(alt_text(ch))
-    return "".join(out)
-
-
 def events_of(text: str, config_kwargs: dict):
     """-> (events, reason): events of the token tree, or None + why the document is outside the
     modelled vocabulary"""
@@ -63,11 +49,15 @@ def events_of(text: str, config_kwargs: dict):
             st = str(node.attrGet("style") or "")
             return {"text-align:left": "text-left", "text-align:right": "text-right", "text-align:center": "text-center"}.get(st, "")
         if k == "image":
-            return f"{node.attrGet('src') or ''}|{alt_text(node)}"
+            return str(node.attrGet("src") or "")
         return ""
 
-    def walk(node):
+    def walk(node, in_image=False):
         k = node.type
+        if k == "text_special" and in_image:
+            # (the label of an image is not passed through text_join: escapes and entities stay separate tokens)
+            ev.append({"e": "leaf", "k": k, "t": node.content or "", "a": ""})
+            return
         if k not in MODELLED:
             why.append(f"token {k}")
             return
@@ -88,12 +78,10 @@ def events_of(text: str, config_kwargs: dict):
         if k == "image":
             if set(node.attrs) - {"src", "alt", "title"}:
                 why.append("attributes on image")
-            ev.append({"e": "leaf", "k": "image", "t": "", "a": attr(node)})
-            return
-        if node.children or k in ("inline",) or node.nester_tokens:
+        if node.children or k in ("inline", "image") or node.nester_tokens:
             ev.append({"e": "open", "k": k, "t": "", "a": attr(node)})
             for ch in node.children:
-                walk(ch)
+                walk(ch, in_image or k == "image")
             ev.append({"e": "close", "k": k, "t": "", "a": ""})
         else:
             ev.append({"e": "leaf", "k": k, "t": node.content or "", "a": attr(node)})
